@@ -30,8 +30,10 @@ type Ctx struct {
 	Tier        string
 	NFiles      int
 	NFuncs      int
-	NNormalised int           // statements brought into the normal spelling (see normalise.go)
-	NoopGuards  []*ast.IfStmt // `if c { continue }` at the very end of a round, dropped by the normaliser
+	NNormalised int                    // statements brought into the normal spelling (see normalise.go)
+	NInlined    int                    // calls of helpers of embedded private structs replaced by their bodies (inline.go)
+	InlinedAway map[*ast.FuncDecl]bool // helpers no call of which is left after that
+	NoopGuards  []*ast.IfStmt          // `if c { continue }` at the very end of a round, dropped by the normaliser
 
 	decls map[*types.Func]*ast.FuncDecl
 	cache map[string]any
@@ -201,7 +203,7 @@ func (c *Ctx) methodsOf(n *types.Named) map[string]*ast.FuncDecl {
 	n = n.Origin()
 	for i := 0; i < n.NumMethods(); i++ {
 		m := n.Method(i)
-		if fd := c.decls[m]; fd != nil {
+		if fd := c.decls[m]; fd != nil && !c.InlinedAway[fd] {
 			out[m.Name()] = fd
 		}
 	}
@@ -228,7 +230,7 @@ func (c *Ctx) methodsOf(n *types.Named) map[string]*ast.FuncDecl {
 			en = en.Origin()
 			for k := 0; k < en.NumMethods(); k++ {
 				m := en.Method(k)
-				if fd := c.decls[m]; fd != nil && out[m.Name()] == nil {
+				if fd := c.decls[m]; fd != nil && out[m.Name()] == nil && !c.InlinedAway[fd] {
 					out[m.Name()] = fd
 				}
 			}
@@ -316,7 +318,7 @@ func (c *Ctx) allFuncDecls(role string) []*ast.FuncDecl {
 	var out []*ast.FuncDecl
 	for _, f := range c.Pkgs[role].Syntax {
 		for _, d := range f.Decls {
-			if fd, ok := d.(*ast.FuncDecl); ok && fd.Body != nil {
+			if fd, ok := d.(*ast.FuncDecl); ok && fd.Body != nil && !c.InlinedAway[fd] {
 				out = append(out, fd)
 			}
 		}
